@@ -41,6 +41,16 @@ def bindItem (x : S) (item k j : Nat) : Option S :=
 def step (x : S) (w : List String) : Option (S × String × List String) :=
   match w with
   | ["run", _, _, _] => ok {}
+  | ["waitend", _] =>
+    -- calls arriving as the runner's wait ends: the runner re-takes the item mutex and then the map mutex (the one lock order:
+    -- BB.Conform.LockOrder), a caller that holds the item mutex validates under the map mutex and attaches to this batch or to
+    -- the successor (BB.Props.C10: every call is answered with the value of an execution begun after it)
+    some ({}, "overlaps=0 hung=0 wrong=0", ["calls_arrive_as_the_wait_ends"])
+  | ["firstrace", _] =>
+    -- racing first calls on the zero value: C09 holds from the initial state on (BB.Props.C09: at most one work function of a
+    -- key in every reachable state; every call is answered), and the map is created once under the mutex
+    -- (BB.Conform.Exclusive.map_created_under_the_mutex_inside_the_loop)
+    some ({}, "overlaps=0 hung=0 wrong=0", ["racing_first_calls"])
   | ["handover", h0, h1] =>
     if !h0.startsWith "held0=" then ok {} else      -- the script line itself
     -- the forced schedule was reached when both gates held their goroutine
